@@ -195,6 +195,7 @@ pub struct Cx {
     pub log: Option<std::io::BufWriter<File>>,
     pub max_samples: usize,
     pub done: bool,
+    last_family: Option<(String, Instant)>,
 }
 
 impl Cx {
@@ -225,6 +226,7 @@ impl Cx {
             log: None,
             max_samples: 6,
             done: false,
+            last_family: None,
         }
     }
     pub fn open_status(&mut self, path: &str) {
@@ -263,6 +265,13 @@ impl Cx {
     }
     /// To call before running a case: records it in the status file so that a crash is attributable
     pub fn begin_case(&mut self, case: u64, family: &str) {
+        // wall time per family (informational, in the evidence)
+        let now = Instant::now();
+        if let Some((fam, t)) = self.last_family.take() {
+            *self.counters.entry(format!("ms:{fam}")).or_insert(0) += now.duration_since(t).as_millis() as u64;
+        }
+        let prefix = family.split(|c| c == ':' || c == '#').next().unwrap_or(family).to_string();
+        self.last_family = Some((prefix, now));
         self.cur_case = case;
         CUR_CASE.store(case as i64, Ordering::Relaxed);
         if let Some(f) = &self.status {
@@ -278,6 +287,9 @@ impl Cx {
         }
     }
     pub fn end_cases(&mut self) {
+        if let Some((fam, t)) = self.last_family.take() {
+            *self.counters.entry(format!("ms:{fam}")).or_insert(0) += t.elapsed().as_millis() as u64;
+        }
         CUR_CASE.store(-1, Ordering::Relaxed);
     }
     pub fn eval(&mut self) {
